@@ -79,7 +79,14 @@ class C18(Check):
                 k = rng.choice(['x', 'x', 'lim'])
                 op = {'group': 'limit', 'kind': k, 'v': round(rng.random() * 120 - 10, 2),
                       'lo': round(rng.random() * 100, 1), 'hi': round(rng.random() * 100, 1)}
-                if rng.random() < 0.4:
+                if rng.random() < 0.25:
+                    # a limit of exactly zero (a bipolar quantity restricted to one sign), values on both sides of it
+                    if rng.random() < 0.5:
+                        op['lo'], op['hi'] = 0.0, rng.choice([5.0, 50.0])
+                    else:
+                        op['lo'], op['hi'] = rng.choice([-8.0, -50.0]), 0.0
+                    op['v'] = rng.choice([-9.0, -0.5, 0.5, 7.0, 0.0])
+                elif rng.random() < 0.4:
                     op['lo'], op['hi'] = max(op['lo'], op['hi']) + 1, min(op['lo'], op['hi'])
                 op['which'] = rng.choice(['min', 'max'])
             else:
